@@ -324,6 +324,23 @@ def depth2(leaves):
     return out
 
 
+def special_value_trees():
+    """literal-only trees whose intermediate results are INFINITE or NaN: an infinity made by overflow (1e300 * 1e300, 1e300 + ...),
+    combined with zero, itself and finite values under every float operator, on either side, and fed into a further operator"""
+    H, Z, ONE = L("float", 1e300), L("float", 0.0), L("float", 1.5)
+    infs = [("bin", "*", H, H), ("neg", ("bin", "*", H, H)), ("bin", "*", ("bin", "*", H, H), L("float", 2.0))]
+    out = []
+    for inf in infs:
+        for other in (Z, ONE, H, inf, L("int", 0), L("int", 3), L("bigint", 0)):
+            for op in ("+", "-", "*", "/", "%"):
+                for t in (("bin", op, inf, other), ("bin", op, other, inf)):
+                    if well_typed(t):
+                        out.append(t)
+                        out.append(("bin", "+", t, ONE))
+                        out.append(("neg", t))
+    return out
+
+
 def chunks(l, n):
     return [l[i:i + n] for i in range(0, len(l), n)]
 
@@ -336,6 +353,8 @@ def enumerated(tier, seed):
         d2 = random.Random(seed).sample(d2, len(d2) // 3)
     cases = [{"trees": c} for c in chunks(d1, 60)] + [{"trees": c} for c in chunks(d2, 60)]
     cases += [{"trees": c, "in_list": True} for c in chunks(d1[::7], 60)]
+    sv = special_value_trees()
+    cases += [{"trees": c} for c in chunks(sv, 60)] + [{"trees": c, "in_list": True} for c in chunks(sv[::3], 60)]
     return cases
 
 
